@@ -18,17 +18,27 @@
                    cancelled and the channels are not both closed, some non-environment label is
                    enabled, and a nat-valued measure decreases on every non-environment step
                    (=> every weakly fair run in which the caller keeps reading closes both channels).
-   PROVED HERE: S1 in full (C04_no_delivery_after_close); the ClientCancelled half of S2 at history level
-   (C04_ctx_cancel_delivers_client_cancelled); the handler-level parts of S2 and S3
-   (C04_cancel_sends_cancel, C04_failure_status_recorded, C04_terminal_error_sticky); the two repaired
-   race windows as facts of the model (C04_cancelled_request_never_goes_online,
-   C04_cancelled_request_not_parked); L for the collector half (C04_progress_collectors_partial: once
-   the loop has closed the internal channels, no stuck state + ranking until both returned channels are
-   closed).  NOT PROVED (checked on every run by trace acceptance with refusals at parked points and by
-   the monitor on the implementation's traces): the history-level counting in S2/S3/S4 and L for the
-   loop/executor half. *)
+   PROVED HERE (all closed under the global context):
+     S1 full: C04_no_delivery_after_close.
+     S2: C04_live_ctx_cancel_delivers_client_cancelled (ClientCancelled before the error channel closes, after
+         the first context cancel of a request in the table -- unconditional), C04_live_ctx_cancel_enqueues_cancel
+         and C04_collector_cancel_at_most_once (what the collector does with its cancel message),
+         C04_cancel_sends_cancel (the loop sends exactly one cancel per cancel message it handles for a request
+         in the table).
+     S3: C04_status_error_at_most_once, C04_failure_status_exactly_once (history level; exactly one AsError(n)
+         before close when the caller does not cancel its context), C04_failure_status_recorded,
+         C04_terminal_error_sticky.
+     S4: C04_success_only_no_status_error.
+     L, deadlock freedom FULL: C04_no_stuck (+ C04_no_stuck_after_cancel, C04_no_stuck_offline).
+     L, ranking: only for the collector half (C04_progress_collectors_partial).  NOT PROVED: a ranking function
+         for the loop / executor / traverser half (termination of the wind-down is bounded by the traversal plan;
+         not formalised), so "eventually closes" is deadlock freedom + collector ranking, not a full proof.
+     Invariants: C04_closed_entry_gone; repaired race windows: C04_cancelled_request_never_goes_online,
+         C04_cancelled_request_not_parked.  Acceptor: C04_acceptor_sound.
+   Method for the invariants and deadlock freedom: finite data abstraction (GS.ReqMgrAbs), simulation proof
+   (GS.ReqMgrAbsK), reachable set computed and checked closed by vm_compute (GS.ReqMgrAbsV, 10272 states). *)
 From Coq Require Import List NArith Bool Arith.
-From GS Require Import Base ReqMgr ReqMgrProofs ReqMgrLive ReqMgrCC ReqMgrInv ReqMgrInvK ReqMgrNoStuck.
+From GS Require Import Base ReqMgr ReqMgrProofs ReqMgrLive ReqMgrCC ReqMgrInv ReqMgrInvK ReqMgrNoStuck ReqMgrCount ReqMgrOutcome ReqMgrCancel ReqMgrAccept.
 Import ListNotations.
 
 (* S1, full: for every plan and every label sequence the event history of the run contains no delivery
@@ -79,6 +89,57 @@ Theorem C04_closed_entry_gone : forall pl ls s es,
   run (init pl) ls = Some (s, es) -> iclosed s = true -> ent s = None /\ lpc s = LIdle.
 Proof. exact closed_entry_gone. Qed.
 Print Assumptions C04_closed_entry_gone.
+
+(* S2, history level, cancel-message half (what the code does exactly).  After the first context cancel of
+   a request that is in the table, before the returned progress channel closes the response collector has
+   either enqueued its cancel message for the actor loop (cancelRequestAndClose; the loop then sends the cancel
+   to the responder iff it still finds the request in the table: C04_cancel_sends_cancel), or it had already
+   seen the internal progress channel closed (the request terminated on its own before the collector reacted).
+   The collector enqueues that message at most once per run.  (Further cancel messages come from CancelRequest
+   calls and from every executor stop on an error or pause; ClientCancelled itself can be delivered twice:
+   once from the channel-closed branch and once from the requestCtx.Done() branch of the error collector.) *)
+Theorem C04_live_ctx_cancel_enqueues_cancel : forall pl ls1 s1 e1 ls2 s2 e2,
+  run (init pl) ls1 = Some (s1, e1) -> ent s1 <> None -> cctx s1 = false ->
+  run s1 (LEnvCtxCancel :: ls2) = Some (s2, e2) -> rc s2 = RCExit ->
+  In (LRC RSendCancel) ls2 \/ In (LRC RSeeClosedP) ls2.
+Proof. exact c04_live_ctx_cancel_msg. Qed.
+Print Assumptions C04_live_ctx_cancel_enqueues_cancel.
+
+Theorem C04_collector_cancel_at_most_once : forall ls s s' es,
+  run s ls = Some (s', es) -> (count_send ls + rc_unsent s' <= rc_unsent s)%nat.
+Proof. exact collector_cancel_once. Qed.
+Print Assumptions C04_collector_cancel_at_most_once.
+
+(* S3 / S4, HISTORY LEVEL.  [delivered P es] counts the deliveries on the returned error channel of errors
+   selected by P; [recorded P s0 ls] counts the steps of the run at which the loop records such an error as
+   the FIRST terminal error of the request (a failure status, no response-hook error, processed while the
+   request is in the table with no terminal error yet) -- at most one step in any run.
+   (a) never more than one status-derived error is delivered, whatever the interleaving;
+   (b) if the caller does not cancel its context, then when the returned error channel has been closed,
+       AsError(n) has been delivered exactly as often (0 or 1) as status n was recorded, and the total of
+       status errors delivered equals the total recorded: exactly one terminal error AsError(n) before
+       close for a recorded failure status n, none for a different status, none at all without one;
+   (c) if the responder sends no failure status at all (partial / success only), no status-derived
+       terminal error is ever delivered.
+   With a caller-context cancel the error may be dropped instead (collector exits after ClientCancelled,
+   cancelRequestAndClose drains): then only (a) holds. *)
+Theorem C04_status_error_at_most_once : forall pl ls s es,
+  run (init pl) ls = Some (s, es) -> dP is_stat es <= 1.
+Proof. exact c04_status_error_at_most_once. Qed.
+Print Assumptions C04_status_error_at_most_once.
+
+Theorem C04_failure_status_exactly_once : forall pl ls s es n,
+  run (init pl) ls = Some (s, es) -> cctx s = false -> ec s = ECExit ->
+  dP (is_statn n) es = created (is_statn n) (init pl) ls /\
+  created (is_statn n) (init pl) ls <= 1 /\
+  dP is_stat es = created is_stat (init pl) ls.
+Proof. exact c04_failure_status_exactly_once. Qed.
+Print Assumptions C04_failure_status_exactly_once.
+
+Theorem C04_success_only_no_status_error : forall pl ls s es,
+  run (init pl) ls = Some (s, es) -> forallb (fun l => negb (fail_label l)) ls = true -> dP is_stat es = 0.
+Proof. exact c04_success_only_no_status_error. Qed.
+Print Assumptions C04_success_only_no_status_error.
 
 (* S3, handler level: a failure status n for a request in the table with no terminal error yet records
    exactly AsError(n), cancels the request locally and sends nothing. *)
@@ -156,6 +217,16 @@ Proof.
   intros s l s' es N Hin H. split; [exact (coll_rank s l s' es N Hin H) | exact (coll_keeps_closed s l s' es Hin H)].
 Qed.
 Print Assumptions C04_progress_collectors_partial.
+
+(* The trace acceptor used by the correspondence leg is sound: an observation list it accepts is the
+   observation of a run of the LTS -- each observation is related to LTS steps by [ostep] (environment /
+   caller labels as themselves, "sent" / "loaded" as a silent path followed by one internal step with exactly
+   that visible token, "quiet" as a silent path to a state in which no ungated internal label is enabled and
+   whose gate and table entry are as observed); no state sets, fuel or deduplication in the meaning. *)
+Theorem C04_acceptor_sound : forall gp gh ss tr,
+  accepts_from gp gh ss tr = true -> exists s s2, In s ss /\ orun gp gh s tr s2.
+Proof. exact accepts_from_sound. Qed.
+Print Assumptions C04_acceptor_sound.
 
 (* ---------- non-vacuity (vm_compute) ---------- *)
 (* a chain of two blocks, nothing local: request sent, two blocks arrive with a success status, the
